@@ -206,7 +206,9 @@ def main():
             raise MachineryError(f"instance construction: {k[0]} alone uses n={r[1]}")
     run.notes["reference_pipelines_run_in_own_process"] = len(wanted)
     for ci, (files, nproc) in enumerate(chosen):
-        for stem in ALL_STEMS:
+        # (the directory is emptied before the FIRST run only: every later run finds the outputs an earlier run wrote there with
+        #  other settings / options - the command line is run again in the same directory - and must write what ITS settings give)
+        for stem in (ALL_STEMS if ci == 0 else ()):
             try:
                 os.remove(os.path.join(wd, f"{stem}.csv"))
             except FileNotFoundError:
@@ -231,7 +233,7 @@ def main():
                           dict(kind="cli", files=files, nproc=nproc))
             continue
         ev = []
-        for line in open(tf):
+        for line in (open(tf) if os.path.exists(tf) else ()):      # (no task started at all: no hook file; judged below)
             pid, sid, fname, nb, na = line.split()
             ev.append(dict(pid=int(pid), sid=int(sid), file=fname.replace(".mseed", "").replace(".saf", ""), nb=NCLASS.get(None if nb == "None" else int(nb), 9),
                            na=NCLASS.get(None if na == "None" else int(na), 9)))
@@ -261,7 +263,7 @@ def main():
     fig_files = ("flat1", "small1")
     refs.prefetch([refs.key(f, "pro.json", ("lognormal", "lognormal")) for f in fig_files], names)
     for f in fig_files:
-        for ext in ("csv", "png"):
+        for ext in ("png",):
             try:
                 os.remove(os.path.join(wd, f"{f}.{ext}"))
             except FileNotFoundError:
